@@ -15,6 +15,7 @@ mod c13;
 mod c16;
 mod c17;
 mod c19;
+mod c20;
 mod fw;
 mod indep;
 mod refstore;
@@ -72,6 +73,7 @@ fn main() {
         "C16" => c16::check(tier),
         "C17" => c17::check(tier),
         "C19" => c19::check(tier),
+        "C20" => c20::check(tier),
         _ => {
             eprintln!("unknown check {id}");
             2
